@@ -77,6 +77,8 @@ def culprit_key(name: str, s: dict, op=None, label=None) -> str:
             if op is not None and not _declared(op, akey):
                 akey = "<discardable>"  # attribute the op does not declare: the name is the harness' choice, not a mechanism
             k += f":{akey}:{s.get('detail')}"
+            if s.get("value_class"):
+                k += f":{s['value_class']}"
         if s.get("op") != name:
             k += f"@{s.get('op')}"
         return k
@@ -98,7 +100,7 @@ def mutation_label(a) -> str:
     return f"{a.kind}:{t}"
 
 
-N_ROUNDS = 10  # K: mutation rounds per module in the universe (= number of mutation kinds: every rotation offset)
+N_ROUNDS = 10  # K: mutation rounds per module in the universe (12 mutation kinds rotate over the instances of an op; 10 rounds)
 
 
 def quick_rounds(seed):
@@ -106,6 +108,62 @@ def quick_rounds(seed):
     r1 = seed % N_ROUNDS
     r2 = (r1 + 1 + (seed // N_ROUNDS) % (N_ROUNDS - 1)) % N_ROUNDS
     return sorted({r1, r2})
+
+
+
+# --------------------------------------------------------------------------- directed part of the universe
+# Fixed, seed-independent generic-form modules for shapes no corpus instance has (and that in-situ mutation reaches only
+# when the corpus happens to contain a suitable instance): per-element attribute arrays filled on a strict subset of
+# the arguments / results of function-like ops, and cf.switch whose cases forward different numbers of operands.
+def _func_like(opname, n_args, n_res, arg_attrs, res_attrs, ret, tys=("i32", "i64", "f32", "index")):
+    tys = list(tys) * 4
+    ins = [tys[i % 4] for i in range(n_args)]
+    outs = [ins[i % max(1, n_args)] if n_args else "i32" for i in range(n_res)]
+    props = [f"function_type = ({', '.join(ins)}) -> ({', '.join(outs)})", 'sym_name = "g"']
+    if arg_attrs is not None:
+        props.append(f"arg_attrs = {arg_attrs}")
+    if res_attrs is not None:
+        props.append(f"res_attrs = {res_attrs}")
+    args = ", ".join(f"%a{i}: {t}" for i, t in enumerate(ins))
+    rv = ", ".join(f"%a{i % max(1, n_args)}" for i in range(n_res))
+    return ('"builtin.module"() ({\n  "%s"() <{%s}> ({\n  ^bb0(%s):\n    "%s"(%s) : (%s) -> ()\n  }) : () -> ()\n}) : () -> ()'
+            % (opname, ", ".join(props), args, ret, rv, ", ".join(outs)))
+
+
+def _switch(default_count, case_counts):
+    tys = ["f32", "i64", "index", "f64", "i8", "i16"]
+    total = default_count + sum(case_counts)
+    at = [tys[i % 6] for i in range(total)]
+    counts = [default_count, *case_counts]
+    blocks, pos = [], 0
+    for bi, n in enumerate(counts):
+        sig = ", ".join(f"%b{bi}_{j}: {at[pos + j]}" for j in range(n))
+        blocks.append(f"  ^bb{bi + 1}" + (f"({sig})" if n else "") + ':\n    "func.return"() : () -> ()')
+        pos += n
+    props = ["case_operand_segments = array<i32" + (": " + ", ".join(map(str, case_counts)) if case_counts else "") + ">"]
+    if case_counts:
+        props.append(f"case_values = dense<[{', '.join(str(40 + i) for i in range(len(case_counts)))}]> : vector<{len(case_counts)}xi32>")
+    props.append(f"operandSegmentSizes = array<i32: 1, {default_count}, {sum(case_counts)}>")
+    ops = ", ".join(["%flag", *(f"%v{i}" for i in range(total))])
+    return ('"builtin.module"() ({\n  "func.func"() <{function_type = (%s) -> (), sym_name = "sw"}> ({\n  ^bb0(%s):\n'
+            '    "cf.switch"(%s)[%s] <{%s}> : (%s) -> ()\n%s\n  }) : () -> ()\n}) : () -> ()'
+            % (", ".join(["i32", *at]), ", ".join(["%flag: i32", *(f"%v{i}: {t}" for i, t in enumerate(at))]), ops,
+               ", ".join(f"^bb{i + 1}" for i in range(len(counts))), ", ".join(props), ", ".join(["i32", *at]), "\n".join(blocks)))
+
+
+def directed_cases():
+    out = []
+    A, B, C, E = "{test.a = 1 : i32}", "{test.b}", "{test.c = 2 : i64}", "{}"
+    shapes = {"full": [A, B, C], "first-only": [A, E, E], "last-only": [E, E, B], "middle-empty": [A, E, C], "all-empty": [E, E, E]}
+    for opname, ret, tys in (("func.func", "func.return", ("i32", "i64", "f32", "index")),
+                             ("csl.func", "csl.return", ("i32", "i16", "f32", "f16"))):  # the backend *_func.func ops take no such arrays
+        for shape, elems in shapes.items():
+            out.append((f"{opname}:res_attrs:{shape}", _func_like(opname, 1, 3, None, "[" + ", ".join(elems) + "]", ret, tys)))
+            out.append((f"{opname}:arg_attrs:{shape}", _func_like(opname, 3, 1, "[" + ", ".join(elems) + "]", None, ret, tys)))
+    for name, (dc, cc) in {"uniform-1": (1, [1, 1, 1]), "uniform-2": (0, [2, 2]), "1-2": (0, [1, 2]), "0-2": (1, [0, 2]),
+                           "2-0-1": (1, [2, 0, 1]), "1-2-1": (0, [1, 2, 1]), "default-only": (1, [])}.items():
+        out.append((f"cf.switch:{name}", _switch(dc, cc)))
+    return out
 
 
 def plan(tier, seed):
@@ -119,8 +177,8 @@ def plan(tier, seed):
     n = 32
     scale = float(os.environ.get("XV_SCALE", "1"))  # self-tests with mutants only: a fraction of the corpus
     rounds = quick_rounds(seed) if tier == "quick" else list(range(N_ROUNDS))
-    return [{"kind": "corpus", "i": i, "n": n, "seed": seed, "rounds": rounds, "stride": max(1, round(1 / scale))}
-            for i in range(n)]
+    return [{"kind": "directed"}] + [{"kind": "corpus", "i": i, "n": n, "seed": seed, "rounds": rounds, "stride": max(1, round(1 / scale))}
+                                     for i in range(n)]
 
 
 def work(job):
@@ -308,6 +366,26 @@ def work(job):
         return False
 
     kind = job["kind"]
+    if kind == "directed":
+        from xdsl.parser import Parser
+        for name, text in directed_cases():
+            if job.get("only") and job["only"] != name:
+                continue
+            ctx = corpus.new_ctx()
+            try:
+                m = Parser(ctx, text, "<directed>").parse_module()
+                m.verify()
+            except Exception:  # noqa: BLE001 - this function-like op does not accept the shape: outside the domain
+                bump("directed_cases_not_parse+verify(skipped)")
+                continue
+            bump("directed_cases")
+            g = roundtrip(m, ctx, True, check_clone=False, check_text=False)
+            evaluate(m, ctx, f"directed:{name}", "directed", {"kind": "directed", "only": name}, g)
+            if name == "cf.switch:1-2-1":
+                res["samples"].append({"directed_case": name, "generic_ir": text})
+        res["nontrivial"] = sorted(nt)
+        res["sets"] = {k: sorted(v) for k, v in sets.items()}
+        return res
     chs = corpus.chunks()
     if kind != "corpus":
         raise ValueError(kind)
@@ -443,7 +521,7 @@ def work(job):
 def finish(agg, tier):
     inc = []
     c = agg.counters
-    need = {"modules_evaluated:as-parsed": 700, "modules_evaluated:mutant": 1000,
+    need = {"directed_cases": 20, "modules_evaluated:as-parsed": 700, "modules_evaluated:mutant": 1000,
             "op_instances_printed_in_custom_form": 30000, "custom_roundtrips_ok": 1000}
     for k, v in need.items():
         if c.get(k, 0) < v:
